@@ -107,27 +107,38 @@ Definition name_char (eq : bool) (c : Z) : bool :=
   negb ((c =? 32) || (c =? 9) || (c =? 10) || (c =? 13) || (c =? 62) || (c =? 0) || (c =? 47) || (c =? 63)
         || (eq && (c =? 61))).
 
-Lemma name_char_step eq c t : name_char eq c = true ->
-  scan_name eq (c :: t) = (n <- scan_name eq t ;; Some (1 + n)).
+Lemma tag_end_eq pi c t : (t <> [] \/ (c <> 47 /\ c <> 63)) -> tag_end pi c t = Some (tag_end_b pi c (getz t 0)).
 Proof.
-  intros H. rewrite scan_name_step. unfold name_char in H. unfold closer_ahead.
-  destruct (Z.eqb_spec c 47); [cbn in H; rewrite ?orb_true_r in H; discriminate|].
-  destruct (Z.eqb_spec c 63); [cbn in H; rewrite ?orb_true_r in H; discriminate|].
-  cbn [orb option_bind].
-  destruct ((c =? 32) || (eq && (c =? 61)) || (c =? 62) || false || (c =? 9) || (c =? 10) || (c =? 13) || (c =? 0)) eqn:E; [|reflexivity].
-  exfalso. destruct eq; cbn [andb] in *; lia.
+  intros H. unfold tag_end, tag_end_b. destruct t as [|c1 t'].
+  - destruct H as [H|(H1 & H2)]; [congruence|].
+    destruct (Z.eqb_spec c 47); [congruence|]. destruct (Z.eqb_spec c 63); [congruence|].
+    destruct pi; [reflexivity|]. destruct (c =? 62); reflexivity.
+  - rewrite getz_cons_0. destruct pi; [destruct (c =? 63); reflexivity|].
+    destruct (c =? 62); [reflexivity|]. destruct ((c =? 47) || (c =? 63)); reflexivity.
 Qed.
 
-Lemma scan_name_app eq a c r : Forall (fun x => name_char eq x = true) a ->
-  name_stop eq c (getz r 0) = true -> ((c = 47 \/ c = 63) -> r <> []) ->
-  scan_name eq (a ++ c :: r) = Some (len a).
+Lemma scan_name_cons' pi eq c t : (t <> [] \/ (c <> 47 /\ c <> 63)) ->
+  scan_name pi eq (c :: t) = if name_stop pi eq c (getz t 0) then Some 0 else n <- scan_name pi eq t ;; Some (1 + n).
+Proof. intros H. rewrite scan_name_step, tag_end_eq by exact H. reflexivity. Qed.
+
+Lemma name_char_stop pi eq c c1 : name_char eq c = true -> name_stop pi eq c c1 = false.
+Proof. unfold name_char, name_stop, tag_end_b. destruct pi, eq; cbn [andb]; lia. Qed.
+
+Lemma name_char_step pi eq c t : name_char eq c = true ->
+  scan_name pi eq (c :: t) = (n <- scan_name pi eq t ;; Some (1 + n)).
+Proof.
+  intros H. rewrite scan_name_cons'.
+  - rewrite (name_char_stop pi eq c _ H). reflexivity.
+  - right. unfold name_char in H. lia.
+Qed.
+
+Lemma scan_name_app pi eq a c r : Forall (fun x => name_char eq x = true) a ->
+  name_stop pi eq c (getz r 0) = true -> ((c = 47 \/ c = 63) -> r <> []) ->
+  scan_name pi eq (a ++ c :: r) = Some (len a).
 Proof.
   intros Ha Hc Hr. induction Ha as [|x a Hx Ha IH]; cbn [app].
-  - rewrite scan_name_step. unfold closer_ahead.
-    destruct ((c =? 47) || (c =? 63)) eqn:E.
-    + destruct r as [|c1 r']; [exfalso; apply Hr; [lia|reflexivity]|]. cbn [option_bind].
-      unfold name_stop in Hc. rewrite E in Hc. rewrite getz_cons_0 in Hc. cbn [andb] in Hc. rewrite Hc. reflexivity.
-    + cbn [option_bind]. unfold name_stop in Hc. rewrite E in Hc. cbn [andb] in Hc. rewrite Hc. reflexivity.
+  - rewrite scan_name_cons'; [rewrite Hc; reflexivity|].
+    destruct (Z.eq_dec c 47); [left; apply Hr; auto|]. destruct (Z.eq_dec c 63); [left; apply Hr; auto|]. right. auto.
   - rewrite name_char_step by exact Hx. rewrite IH. cbn [option_bind]. rewrite len_cons. reflexivity.
 Qed.
 
